@@ -8,6 +8,9 @@ interleavings share one state; the shape of Put comes from the regenerated facts
   get <seq>   ack <seq>   gc   reopen
   c-alloc <t> <hex|->    c-allocgen <t> <start> <len>
   c-write <t>   c-persist <t>   c-crash
+  putn <count> <hex|->   (count Puts of the same message; answers like the last one)
+  putfail <hex|->        putfailgen <start> <len>   (Put under a one-shot data AcquirePage fault)
+  g-snap   g-read   g-truncdata   g-truncindex      (the steps of one GC call)
 -/
 import LinVerif.Util.Proto
 import LinVerif.Model.Queue
@@ -73,6 +76,29 @@ def seqPut (d : DSt) (m : Msg) : DSt × String :=
   match put d.σ.st m with
   | (st, .ok s) => ({ d with σ := withSt d.σ st }, s!"ok seq={s} {showCur st.q}")
   | (_, .tooLarge) => (d, "err too-large")
+  | (_, .acquireFailed) => (d, "bad-op")   -- a plain Put has no AcquirePage fault
+
+def seqPutFail (d : DSt) (m : Msg) : DSt × String :=
+  if d.σ.busy ≠ 0 then (d, "not-enabled") else
+  match putF d.σ.st m with
+  | (st, .ok s) => ({ d with σ := withSt d.σ st }, s!"ok seq={s} {showCur st.q}")
+  | (_, .tooLarge) => (d, "err too-large")
+  | (st, .acquireFailed) => ({ d with σ := withSt d.σ st }, "err acquire " ++ showQ st.q)
+
+def seqPutN (d : DSt) (m : Msg) : Nat → DSt × String
+  | 0 => (d, "ok none")
+  | 1 => seqPut d m
+  | n + 1 => seqPutN (seqPut d m).1 m n
+
+def gcPages (σ : CSt) : String := s!"data={showList σ.mem.dataLive} index={showList σ.mem.indexLive}"
+
+/-- a GC step: `done` when the GC call has returned, `parked` when it waits before its next step -/
+def gcStep (d : DSt) (shape : Shape) (e : Ev) : DSt × String :=
+  match cstep shape d.σ e with
+  | some (σ', _) =>
+    let st := match σ'.gc with | .idle => "done" | _ => "parked"
+    ({ d with σ := σ' }, s!"ok {st} {gcPages σ'}")
+  | none => (d, "not-enabled")
 
 def seqCrashPut (d : DSt) (k : Nat) (m : Msg) : DSt × String :=
   if d.σ.busy ≠ 0 then (d, "not-enabled") else
@@ -84,6 +110,7 @@ def cAlloc (d : DSt) (shape : Shape) (t : Nat) (m : Msg) : DSt × String :=
   | some (σ', .none) => ({ d with σ := σ' }, s!"ok parked {showCur σ'.q}")
   | some (σ', .ret s _) => ({ d with σ := σ' }, s!"ok seq={s} {showCur σ'.q}")
   | some (_, .tooLarge) => (d, "err too-large")
+  | some (_, .failed) => (d, "bad-op")
   | _ => (d, "not-enabled")
 
 def step (d : DSt) (ws : List String) : DSt × String :=
@@ -100,6 +127,22 @@ def step (d : DSt) (ws : List String) : DSt × String :=
     match a.toNat?, b.toNat? with
     | some start, some len => seqPut d (Msg.gen start len)
     | _, _ => (d, "bad-op")
+  | ["putn", n, w] =>
+    match n.toNat?, parseMsg w with
+    | some n, some m => seqPutN d m n
+    | _, _ => (d, "bad-op")
+  | ["putfail", w] =>
+    match parseMsg w with
+    | some m => seqPutFail d m
+    | none => (d, "bad-op")
+  | ["putfailgen", a, b] =>
+    match a.toNat?, b.toNat? with
+    | some start, some len => seqPutFail d (Msg.gen start len)
+    | _, _ => (d, "bad-op")
+  | ["g-snap"] => gcStep d shape .gcSnap
+  | ["g-read"] => gcStep d shape .gcRead
+  | ["g-truncdata"] => gcStep d shape .gcTruncData
+  | ["g-truncindex"] => gcStep d shape .gcTruncIndex
   | ["crashput", k, w] =>
     match k.toNat?, parseMsg w with
     | some k, some m => seqCrashPut d k m
